@@ -59,7 +59,7 @@ type CLIResult struct {
 
 // RunCLI runs a binary with cwd=dir. The timeout is a watchdog only (its firing is inconclusive).
 func RunCLI(bin, dir string, env []string, args ...string) CLIResult {
-	ctx, cancel := context.WithTimeout(context.Background(), 120*time.Second)
+	ctx, cancel := context.WithTimeout(context.Background(), 300*time.Second)
 	defer cancel()
 	cmd := exec.CommandContext(ctx, bin, args...)
 	cmd.Dir = dir
